@@ -54,7 +54,7 @@ pub enum Stop {
 
 pub type Stats = BTreeMap<&'static str, u64>;
 
-#[derive(Debug, Default)]
+#[derive(Clone, Debug, Default)]
 pub struct Outcome {
     pub violation: Option<Violation>,
     pub harness: Option<String>,
@@ -70,6 +70,8 @@ pub struct Outcome {
     pub steps_done: usize,
     pub order_hash: u64,
     pub end_state_hash: u64,
+    /// the run did not finish within the watchdog limit: (step index, op, inside a library call?)
+    pub hang: Option<(usize, &'static str, bool)>,
 }
 
 pub struct Handle {
@@ -96,6 +98,8 @@ pub struct MgrState {
     pub id2ptr: HashMap<usize, usize>,
     /// cache entries present at the last eviction (for the miss-after-eviction probe)
     pub evicted: u64,
+    /// memo of the sizing probe, by term address
+    pub sized: HashMap<usize, Option<usize>>,
 }
 
 pub struct World<'t> {
@@ -113,20 +117,49 @@ pub struct World<'t> {
     pub order: DetHasher,
 }
 
+/// reference-model work allowed per step (transitions built); beyond it terms become opaque
+pub const STEP_DFA_BUDGET: u64 = 1_500_000;
+
 /// progress marker read by the watchdog: (step index << 8) | op index
 pub static PROGRESS: AtomicU64 = AtomicU64::new(0);
+/// print log lines to stderr as they are produced (debugging aid: `smtsim one ... --live`)
+pub static LIVE: AtomicU64 = AtomicU64::new(0);
+
+pub fn watchdog_secs() -> u64 {
+    std::env::var("SMTSIM_WATCHDOG_S")
+        .ok()
+        .and_then(|x| x.parse().ok())
+        .unwrap_or(60)
+}
 
 pub fn run_trace(trace: &Trace, cfg: &Config) -> Outcome {
     let trace = trace.clone();
     let cfg = cfg.clone();
+    let (tx, rx) = std::sync::mpsc::channel();
     let h = std::thread::Builder::new()
         .name("sim-run".into())
         .stack_size(512 << 20)
-        .spawn(move || run_inner(&trace, &cfg))
+        .spawn(move || {
+            let o = run_inner(&trace, &cfg);
+            let _ = tx.send(o);
+        })
         .expect("spawn");
-    match h.join() {
-        Ok(o) => o,
+    match rx.recv_timeout(std::time::Duration::from_secs(watchdog_secs())) {
+        Ok(o) => {
+            let _ = h.join();
+            o
+        }
+        Err(std::sync::mpsc::RecvTimeoutError::Timeout) => {
+            // the thread cannot be stopped; the caller reports and lets the process end
+            let p = PROGRESS.load(Ordering::Relaxed);
+            let in_lib = IN_LIBRARY.load(Ordering::Relaxed) != 0;
+            let op = ALL_OPS.get((p & 0xff) as usize).map(|o| o.name()).unwrap_or("?");
+            let mut o = Outcome::default();
+            o.hang = Some(((p >> 8) as usize, op, in_lib));
+            o
+        }
         Err(_) => {
+            let _ = h.join();
             let mut o = Outcome::default();
             o.harness = Some("simulator thread panicked outside a guarded call".into());
             o
@@ -162,6 +195,7 @@ fn run_inner(trace: &Trace, cfg: &Config) -> Outcome {
             first_owner: HashMap::new(),
             id2ptr: HashMap::new(),
             evicted: 0,
+            sized: HashMap::new(),
         });
     }
     w.out.obs = vec![Vec::new(); trace.clients.len()];
@@ -193,6 +227,9 @@ impl<'t> World<'t> {
     pub fn log(&mut self, line: String) {
         self.hasher.write_str(&line);
         if self.cfg.want_log {
+            if LIVE.load(Ordering::Relaxed) != 0 {
+                eprintln!("{line}");
+            }
             self.out.log.push(line);
         }
     }
@@ -244,6 +281,17 @@ impl<'t> World<'t> {
     pub fn info(&mut self, mi: usize, r: RegLan) -> Arc<TermInfo> {
         let ms = &mut self.mgrs[mi];
         term_info(r, &self.alpha, &mut ms.memo)
+    }
+
+    /// may a search over the whole derivative graph of this term be requested? (see sizing_probe)
+    pub fn searchable(&mut self, mi: usize, r: RegLan) -> bool {
+        if let Some(x) = self.mgrs[mi].sized.get(&key(r)) {
+            return x.is_some();
+        }
+        let x = sizing_probe(r);
+        self.mgrs[mi].sized.insert(key(r), x);
+        self.bump("sizing_probes");
+        x.is_some()
     }
 
     pub fn spec_dfa(&mut self, spec: &A) -> Option<Arc<Dfa>> {
@@ -458,6 +506,7 @@ impl<'t> World<'t> {
     // ------------------------------------------------------------------------------------
 
     fn exec_step(&mut self, ci: usize, st: &Step) -> Result<(), Stop> {
+        crate::dfa::set_budget(STEP_DFA_BUDGET);
         match st.op.cat() {
             Cat::Ctor => self.step_ctor(ci, st),
             Cat::Deriv => self.step_deriv(ci, st),
